@@ -235,6 +235,8 @@ class Canon:
             a = model_attr(dom[1])
             if a in ROWS:
                 return ('rowat', ROWS[a], dom[2])
+        if dom[0] == 'slice' and dom[1][0] == 'bvar' and self.classify(dom[1])[0] == 'rows':
+            return ('rowslice', dom[1], dom[2], dom[3])
         if dom[0] == 'call' and dom[1] == S('list') and len(dom[2]) == 1:
             inner = dom[2][0]
             if inner[0] == 'call' and show(inner[1]).endswith('chain.from_iterable') and model_attr(inner[2][0]) == 'pairs':
@@ -321,6 +323,8 @@ class Canon:
                 if b[1] in self.names:
                     return patom(self.names[b[1]])
                 raise Unknown('indexof of unnamed binder')
+            if kk[0] == 'elem':
+                return patom('pos(%s)' % self.pairname(b))         # position of a pair in its row
             raise Unknown('indexof ' + show(t))
         if k == 'attr':
             a = model_attr(t)
@@ -621,6 +625,20 @@ class Canon:
                     if not hasattr(self, 'varbinders') or self.varbinders is None:
                         self.varbinders = {}
                     self.varbinders[b[1]] = '%s[%s]' % (letter, sumvar)
+                elif kk[0] == 'rowslice':
+                    # a part of a row chosen by POSITION: { q in row : lo <= pos(q) < hi }
+                    if sumvar:
+                        raise Unknown('nested pair sums')
+                    sumvar = 'q'
+                    self.names[b[1]] = 'q'
+                    row = kk[1]
+                    if row[1] not in self.names:
+                        raise Unknown('row binder unnamed')
+                    preds += self.rowpred(self.classify(row)[1], 'q', patom(self.names[row[1]]), row)
+                    if kk[2] not in (NONE, C(0)):
+                        preds.append(pred_text('GtE', psub(patom('pos(q)'), self.poly(kk[2]))))
+                    if kk[3] != NONE:
+                        preds.append(pred_text('Lt', psub(patom('pos(q)'), self.poly(kk[3]))))
                 elif kk[0] == 'while':
                     if sumvar:
                         raise Unknown('nested sums')
